@@ -73,6 +73,7 @@ structure In where
   /-- the speed-up phase applies: `MasterTransition == "switchover"` (not set for worker requests) and semi-sync -/
   turbo : Bool := false
   turboOk : Bool := true
+  optStop2Ok : Bool := true              -- the second `stopActiveNodeOptimization`, after the speed-up phase
   ro : String → Bool                     -- phase 1: the read-only request succeeded on h
   rejectOk : Bool := true
   io : String → Bool                     -- phase 2: IO thread stopped and replication not permanently broken
@@ -161,12 +162,16 @@ def performSwitchover (cfg : Cfg) (i : In) : List Step :=
   if i.sw.to != "" && !i.active.contains i.sw.to then [.fail "replica is not active"] else
   if !(dubiousHAHosts i.cs).isEmpty then [.fail "dubious hosts"] else
   let wl := workList i
+  -- a listed host / the recorded master that is not a registered host: the procedure fails before anything is touched
+  -- (nil dereferences before fix: fc0b66f)
+  if (wl ++ [i.oldMaster]).any (fun h => (pingOk i.cs h).isNone) then [.fail "host is not among cluster hosts"] else
   if !i.optStopOk then [.stopOptimization false] else
   let s0 : List Step := [.stopOptimization true]
   let turbo := i.turbo
   if turbo && !i.turboOk then s0 ++ [.turboPhase false] else
-  let s1 := if turbo then s0 ++ [.turboPhase true] else s0
-  if wl.any (fun h => (pingOk i.cs h).isNone) then s1 ++ [.panic "clusterState[host]"] else
+  -- the speed-up phase may have relaxed a replica: optimisation is switched off AGAIN before the freeze (fix: 97bff8a)
+  if turbo && !i.optStop2Ok then s0 ++ [.turboPhase true, .stopOptimization false] else
+  let s1 := if turbo then s0 ++ [.turboPhase true, .stopOptimization true] else s0
   -- phase 1
   let roOk := fun h => (pingOk i.cs h == some true) && i.ro h
   let s2 := s1 ++ wl.map fun h => Step.freezeRO h (roOk h)
